@@ -255,7 +255,8 @@ def plans(tier, seed):
                 ("MX", 2, False, True, False, 0), ("SX", 1, False, False, True, 0), ("SX", 0, False, False, False, 1),
                 ("MX", 1, True, False, False, 1), ("SX", 3, False, False, False, 0)]
         jobs = [({"pset": 0, "d": 0, "variants": (core, core[1:3])}, specs1),
-                ({"pset": 0, "d": 0, "variants": variant_sets("quick")}, specs0)]
+                ({"pset": 0, "d": 0, "variants": variant_sets("quick")},
+                 specs0 + [(f"harness:{k}", s) for k, s in harness_specs(pal).items()])]
         bounds = {"shapes": "(n,m)<=(3,3): c<=1 with 8 core variants; base+uniform configurations with 38 variants",
                   "orders": 3, "vectors": "2 element-distinct base vectors", "palette": pal}
     else:
